@@ -1245,6 +1245,14 @@ func main() {
 				kindQueueConfig(w)
 			case 7:
 				kindHeavy(w, env, c.Seed, &stores)
+			case 8:
+				for rep := 0; rep < 3; rep++ {
+					kindDrainContract(w, c.Seed)
+				}
+			case 9:
+				for rep := 0; rep < 3; rep++ {
+					kindAbandoned(w, c.Seed)
+				}
 			}
 		}
 		return
@@ -1268,6 +1276,13 @@ func main() {
 	}
 	for i := 0; i < 24+o.N/10; i++ {
 		kindFault(w, r.Uint64())
+	}
+	// draining: the ProcessSender contract and cycles feeding an abandoned intersection / exclusion
+	for i := 0; i < 16+o.N/20; i++ {
+		kindDrainContract(w, r.Uint64())
+	}
+	for i := 0; i < 6+o.N/60; i++ {
+		kindAbandoned(w, r.Uint64())
 	}
 	ne2e := o.N / 6
 	for i := 0; i < ne2e; i++ {
